@@ -198,6 +198,8 @@ where
         .collect::<Vec<_>>()
         .into_par_iter()
         .map(move |node_index| {
+            #[cfg(feature = "verif-hooks")]
+            crate::verif_hooks::par_item("all_pairs", node_index);
             let ss_index = match can_use_basic(target.clone(), cutoff, first_only, with_paths) {
                 true => dijkstra_basic(graph, weighted, node_index),
                 false => dijkstra(
@@ -362,6 +364,11 @@ where
         true => sources
             .into_par_iter()
             .map(|source| {
+                #[cfg(feature = "verif-hooks")]
+                crate::verif_hooks::par_item(
+                    "multi_source",
+                    graph.get_node_index(&source).unwrap_or(usize::MAX),
+                );
                 (
                     source.clone(),
                     single_source(
